@@ -85,10 +85,10 @@ CLAIMED["C07"] = dict(
         "inverse / recorded conditioner inputs of the additive and affine couplings with an integer-valued recording "
         "network (2-D and 4-D, with context), and the parameter layout handed to the piecewise kernels; a bit-exact "
         "perturbation experiment on all seven coupling classes with residual networks is the failing-input search.",
-   note="Trusted: Coq kernel (no axioms); extraction; harness (recording conditioner). The elementwise kernels "
+   note="Trusted: Coq kernel (no axioms); translator (Gen/Context.v tables); extraction; harness (recording conditioner). The elementwise kernels "
         "themselves belong to C01/C02/C09; the unconditional-transform path is modelled but theorems are stated for "
         "unconditional_transform=None (the property's own exception).",
-   technique="Coq proof (lists/index maps, axiom-free) + extracted-model exact correspondence",
+   technique="Coq proof (lists/index maps, axiom-free) + AST translator (call / gate tables) + extracted-model exact correspondence",
    design="DESIGN.md section 4, C07")
 
 CLAIMED["C18"] = dict(
@@ -345,17 +345,25 @@ EXTRA = {
         "differentiable at every interior point of its box, knots included (derivative gluing), and the returned log-abs-det "
         "is the logarithm of that derivative (C01_rq_whole_spline_logabsdet_is_log_derivative); LogTanh's logarithmic tails (generated "
         "constants) meet the tanh piece at the cut point and their log-abs-det is the logarithm of the positive slope alpha/|x| "
-        "(C01_logtanh_tails).",
+        "(C01_logtanh_tails); the cubic bin's log-abs-det is the logarithm of the derivative of its output (C01_cubic_bin).",
  "C02": "ADDED: C02_rq_whole_spline_round_trips - for the whole rational-quadratic spline the inverse branch undoes the forward "
         "branch and vice versa on the whole box with negated log-abs-dets, for every accepted configuration and all parameters; "
         "C02_tanh_sigmoid_cauchy_inverses - both round trips and the log-abs-det negation of tanh, the sigmoid with any temperature "
         "(inside its clamp) and the Cauchy CDF, from the generated formulas. Every catalogue entry is also exercised as a second "
         "instance that received the first one's state dict.",
- "C03": "ADDED: C03_rq_whole_spline_onto - the whole rational-quadratic spline attains every value of its target interval.",
+ "C03": "ADDED: C03_rq_whole_spline_onto - the whole rational-quadratic spline attains every value of its target interval; "
+        "C03_rq_whole_spline_change_of_variables - for every accepted configuration, ALL parameters and every continuous base "
+        "density phi, the integral of phi(F x) exp(logabsdet x) over [left, right] equals the integral of phi over [bottom, top] "
+        "(bin by bin, glued with Chasles); C03_rq_spline_flow_carries_the_base_mass - for the flow (rational-quadratic spline "
+        "with linear tails over a standard normal) exp(log_prob), built from the generated log_prob / energy / normaliser "
+        "formulas, integrates over [-A, A] to exactly the standard normal mass of [-A, A] for every A beyond the tail bound.",
  "C17": "Tail bounds that are not representable in float32 (0.1, 0.7, 1.1, 3.3) are part of the search. "
         "ADDED: C17_rq_whole_spline_accepts_its_box - every input of the closed box is accepted in both directions (no domain "
         "error, no out-of-range bin), for every accepted configuration and all parameters (over the reals).",
- "C04": "The search also uses ConditionalDiagonalNormal bases whose draws reveal their context row, alone and under flows.",
+ "C04": "The search also uses ConditionalDiagonalNormal bases whose draws reveal their context row, alone and under flows, with "
+        "and without batch_size and a non-identity embedding net. ADDED: Flow._sample, Flow.sample_and_log_prob and "
+        "ConditionalDiagonalNormal._sample are regenerated statement by statement as row-layout programs and proved to be the "
+        "pairing model (C04_generated_*), and every call into the base distribution / transform is shown to receive the embedded context.",
  "C05": "mean() is also checked as the mode of the density (gradient of log_prob vanishes there) for flat and structured "
         "context layouts and multi-dimensional events.",
  "C08": "The bodies of CompositeTransform.__init__/_cascade/forward/inverse and InverseTransform.__init__/forward/inverse are "
@@ -369,7 +377,9 @@ EXTRA = {
         "default configuration meets the hypotheses for any box and up to 1000 bins; with linear tails it is a strictly increasing "
         "bijection of the whole real line (C09_rq_unconstrained_is_an_increasing_bijection_of_the_line). The piecewise-linear spline's "
         "forward direction is proved likewise for any unnormalised pdf (floor-based bin, C09_linear_whole_spline_is_increasing_onto). "
-        "Still by correspondence / search only: the linear inverse, the assembly of the quadratic and cubic families, the cubic bin.",
+        "The cubic bin is strictly increasing whenever its end derivatives lie in (0, 3 slope), which the generated boundary and "
+        "Steffen-limited inner derivative formulas guarantee (C09_cubic_bin, C09_cubic_derivatives_are_admissible). Still by "
+        "correspondence / search only: the linear inverse, the assembly of the quadratic and cubic families, the cubic inverse.",
  "C11": "The search also covers weight_and_logabsdet(), weight_inverse_and_logabsdet() and cached passes in both orders. ADDED: the "
         "bodies of weight / weight_inverse / logabsdet / forward_no_cache / inverse_no_cache (and the cache-filling combined accessor) "
         "of LULinear, QRLinear, SVDLinear and NaiveLinear are regenerated on every run as matrix expression trees and the same "
@@ -396,7 +406,37 @@ OVERRIDE = {
  "C12": dict(technique="Coq proof (map / chunks / concat lemmas, axiom-free) + AST translator (tail wrappers) + extracted-pipeline "
                        "correspondence + row-vs-batch search"),
 }
+EXTRA4 = {
+ "C01": "The search includes normalisation / affine / LU / sigmoid entries whose parameters are far from initialisation.",
+ "C02": "A multiscale transform whose three parts are all conditional is in the catalogue, and a generated table of every "
+        "sub-transform / conditioner call shows that each hands on the context (C02_the_context_reaches_every_part).",
+ "C04": "Contexts of dtype int64, bool, float16, bfloat16 and float64 are used: the noise must stay floating-point standard normal.",
+ "C05": "The MADE mixture is also integrated in three dimensions for residual, feed-forward and random-mask architectures.",
+ "C06": "ADDED: the constructors of both copies are shown to hand degrees from layer to layer as a chain "
+        "(C06_constructors_wire_degrees_in_a_chain, table regenerated on every run); every network is examined again after its "
+        "state dict was loaded into a second instance.",
+ "C07": "ADDED: generated tables show that the conditioner and the unconditional transform are called with (identity split, "
+        "context) in both directions and that an unconditional transform is built only under `if apply_unconditional_transform` "
+        "(C07_conditioner_sees_identity_split_and_context, C07_unconditional_transform_only_when_requested); the search passes "
+        "img_shape without requesting an unconditional transform.",
+ "C08": "A generated table shows that every part is called with the wrapper's context (C08_wrappers_hand_the_context_to_every_part).",
+ "C12": "Every spline entry is evaluated again with all parameters zero (exactly linear interior segments next to curved edge "
+        "segments in one batch).",
+ "C13": "float32 and float64 inputs; the first training-mode call of a fresh normalisation layer, including images whose "
+        "permute+reshape is a view.",
+ "C14": "Batch sizes vary per step down to a single image; the translator also pins the statement skeleton of the five "
+        "modelled methods (an extra guard or early return is not modelled).",
+ "C16": "Training mode with dropout and batch norm inside the conditioner networks is searched with the dropout mask pinned by "
+        "re-seeding; `inplace=` keyword arguments are rows of the in-place table.",
+ "C18": "Flows whose transform changes the event shape (squeeze, multiscale) are sampled with and without a context.",
+ "C19": "The float32 log-abs-det of the four spline functions is compared with float64 inside the bins for peaked parameters; "
+        "the translator counts the writes to each spline intermediate (store census).",
+ "C20": "logabsdet is evaluated on matrices whose determinant leaves the floating-point range (scales 1e-120..1e80, 3 x "
+        "orthogonal(128) in float32).",
+}
 for _pid, _t in EXTRA.items():
+    CLAIMED[_pid]["text"] += " " + _t
+for _pid, _t in EXTRA4.items():
     CLAIMED[_pid]["text"] += " " + _t
 for _pid, _d in OVERRIDE.items():
     CLAIMED[_pid].update(_d)
